@@ -11,7 +11,7 @@ import traceback
 import numpy as np
 
 from .. import ct, gen, history, ref, sanitizer
-from ..common import Deadline, budget, rng_for
+from ..common import OpTimeout, time_limit, Deadline, budget, rng_for
 
 PID = "C02"
 LEVEL = "exploration"
@@ -29,9 +29,11 @@ ASSUMPTIONS = [
 REQUIRED_MONITORS = ["value_after_op", "sanitizer_I1", "sanitizer_I4", "ghost_checks", "projected_value"] + [
     "ok:" + m for m in history.MUTATORS
 ]
-SHARD_TIMEOUT = {"quick": 900, "thorough": 5400}
+SHARD_TIMEOUT = {"quick": 400, "thorough": 5400}
 
 VALUE_OPTS = ({}, {"prefer_einsum": True})
+
+OP_LIMIT = 30
 
 
 def nshards(tier):
@@ -130,7 +132,11 @@ def run_history(rep, case, gen_rng=None, nops=0, observe=True):
         rep.count("state_class_before", (op["op"], history.state_class(tree)))
         raised = None
         try:
-            after, result, refused = history.apply_op(tree, op, arrays)
+            with time_limit(OP_LIMIT):
+                after, result, refused = history.apply_op(tree, op, arrays)
+        except OpTimeout as e:
+            rep.inconclusive_case(f"{op['op']}: {e}")
+            return n_mut
         except Exception as e:
             # weaker reading: an operation that raises is not by itself a change of value;
             # but whatever state it leaves behind is still observed below
